@@ -295,6 +295,9 @@ def run_engine(hname, argv=None):
         with ctx.Pool(min(jobs, len(tasks)), initializer=_init_worker) as pool:
             for r in pool.imap_unordered(_work, [(hname, c, tier) for c in tasks], chunksize=1):
                 results.append(r)
+                if os.environ.get("VERIF_PROGRESS"):
+                    print(f"PROGRESS {len(results)}/{len(tasks)} {time.time() - t0:.0f}s last={r.get('wall_s', 0):.0f}s paths={r.get('paths')} "
+                          f"cfg={json.dumps(r.get('cfg'))[:160]}", file=sys.stderr, flush=True)
     return dict(H=H, hname=hname, tier=tier, seed=seed, configs=configs, results=results, t0=t0, home=home)
 
 
